@@ -29,7 +29,7 @@ ASSUMPTIONS = ["AT4 zone set-point/damper calls deliberately also send the match
 
 
 def bounds(tier):
-    return {"temperature_grid": "j/20 for j in [-200,1200]", "damper": "[-5,105]", "ac_numbers": "0..3 (AT4) / 0..15 (AT5)", "zone_numbers": "0..15"}
+    return {"temperature_grid": "j/20 for j in [-200,1200]", "damper": "[-5,105]", "ac_numbers": "0..3 (AT4) / 0..15 (AT5)", "zone_numbers": "0..15", "numbering": "fixed AC 1 / zone 3 except the addressing instances" if tier == "quick" else "every call over every AC / zone number", "ability_bitmaps": "the bitmap relevant to the call free, the other fixed" if tier == "quick" else "also both bitmaps free at once (ac_mode, ac_fan)"}
 
 
 def instances(tier):
